@@ -61,6 +61,8 @@ func replayTemplatePath(fr *FuncResult) string {
 }
 
 // tryReplay renders and runs the replay test. Returns (reproduced, output, test source).
+var replayPkgRe = regexp.MustCompile(`VERIF-REPLAY-PACKAGE:\s*(\S+)`)
+
 func tryReplay(fr *FuncResult, o *Oblig, model map[string]string) (bool, string, string) {
 	if fr == nil || fr.VC == nil || fr.VC.fn.Pkg == nil {
 		return false, "", ""
@@ -92,6 +94,10 @@ func tryReplay(fr *FuncResult, o *Oblig, model map[string]string) (bool, string,
 		return false, "no module for " + pkgPath, test
 	}
 	rel := strings.TrimPrefix(pkgPath, "github.com/orda-io/orda/")
+	if m := replayPkgRe.FindStringSubmatch(test); m != nil {
+		// the replay needs a package that can see more than the function's own one (e.g. a whole datatype)
+		rel = m[1]
+	}
 	pkgDir := filepath.Join(repoRoot, rel)
 	dir := scratchDir()
 	tf := filepath.Join(dir, fmt.Sprintf("replay_%d_test.go", time.Now().UnixNano()))
